@@ -29,6 +29,7 @@ import (
 
 	"github.com/miekg/dns"
 	"github.com/semihalev/sdns/internal/authority"
+	"github.com/semihalev/sdns/internal/mock"
 	"github.com/semihalev/sdns/middleware"
 )
 
@@ -374,6 +375,114 @@ func vC07LabMinHop(l *vC07Lab, r *rand.Rand, cnt int, scratch string, emit func(
 				}(),
 				"ended":                    []string{"message handed back (Resolver.authority)", "referral rejected", "parent detection", "referral followed", "no reachable server", "dropped: the same servers were asked the next name"}[cls],
 				"provisional_entries_seen": snapDesc, "on_file_afterwards": prDesc},
+		})
+	}
+}
+
+// ask with an OPT record (edns 1), with DO (2) or without (0), and the CD bit
+func (p *vC07Pipe) askFlags(name string, qtype uint16, edns int, cd bool) *dns.Msg {
+	req := new(dns.Msg)
+	req.SetQuestion(name, qtype)
+	req.CheckingDisabled = cd
+	if edns > 0 {
+		req.SetEdns0(1232, edns == 2)
+	}
+	w := mock.NewWriter("udp", "127.0.0.1:0")
+	ch := middleware.NewChain([]middleware.Handler{p.cm, p.h})
+	ch.Reset(w, req)
+	ctx, cancel := context.WithTimeout(context.Background(), 8*time.Second)
+	defer cancel()
+	ch.Next(ctx)
+	if !w.Written() {
+		return nil
+	}
+	return w.Msg()
+}
+
+// lab section "sections": what is left of the Authority and Additional sections of a POSITIVE answer by the time it
+// reaches the client (Resolver.answer -> clearAdditional, then the cache), first reply and the reply served from the
+// cache entry.  The attacker's server answers its own name with the RRset - signed or not, the signature's Labels field
+// equal to, smaller than or larger than the owner's label count - and fills Authority / Additional with records of
+// every kind owned by its own and by other zones' names; the client asks with and without OPT / DO / CD.
+func vC07LabSections(l *vC07Lab, r *rand.Rand, cnt int, scratch string, emit func(map[string]any)) {
+	in := uint16(dns.ClassINET)
+	for c := 0; c < cnt; c++ {
+		qn := vC07Name{fmt.Sprintf("s%d", c), "evil", "l1"}
+		qs := qn.String()
+		edns, cd := []int{2, 2, 1, 0}[c%4], (c/4)%2 == 0
+		var attack vC07Attack
+		attack.answer = []vC07RRSpec{{owner: qn, rrtype: dns.TypeA, class: in, ttl: 300, ip: []byte{198, 51, 100, 73}}}
+		tag := "unsigned"
+		if c%3 != 2 {
+			d := []int{-1, 0, -2, 1, -1, -9}[(c/2)%6]
+			attack.answer = append(attack.answer, vC07RRSpec{owner: qn, rrtype: dns.TypeRRSIG, class: in, ttl: 300, covered: dns.TypeA, labelsDelta: d})
+			tag = fmt.Sprintf("sig-labels%+d", d)
+		}
+		owners := []vC07Name{vC07N("victim.l2."), vC07N("www.victim.l2."), vC07N("bank.l1."), vC07N(vC07Evil), qn, vC07N("l1.")}
+		for i, k := 0, 2+r.Intn(5); i < k; i++ {
+			s := vC07RRSpec{owner: owners[r.Intn(len(owners))], class: in, ttl: 300}
+			s.rrtype = []uint16{dns.TypeNSEC, dns.TypeNSEC3, dns.TypeRRSIG, dns.TypeRRSIG, dns.TypeNS, dns.TypeSOA, dns.TypeDS}[r.Intn(7)]
+			switch s.rrtype {
+			case dns.TypeRRSIG:
+				s.covered = []uint16{dns.TypeNSEC, dns.TypeNSEC3, dns.TypeSOA, dns.TypeNS}[r.Intn(4)]
+			case dns.TypeNS:
+				s.target = vC07N("ns.evil.l1.")
+			}
+			attack.ns = append(attack.ns, s)
+		}
+		attack.ns = append(attack.ns, vC07RRSpec{owner: vC07N("victim.l2."), rrtype: dns.TypeNSEC, class: in, ttl: 300},
+			vC07RRSpec{owner: vC07N("victim.l2."), rrtype: dns.TypeRRSIG, class: in, ttl: 300, covered: dns.TypeNSEC})
+		attack.extra = []vC07RRSpec{{owner: vC07N("www.victim.l2."), rrtype: dns.TypeA, class: in, ttl: 300, ip: []byte{6, 6, 6, 81}},
+			{owner: vC07N("ns.victim.l2."), rrtype: dns.TypeA, class: in, ttl: 300, ip: vC07Rogue}}
+		amsg := attack.msg()
+		l.evil.setHandle(func(q dns.Question) *dns.Msg {
+			if strings.EqualFold(q.Name, qs) && q.Qtype == dns.TypeA {
+				return amsg
+			}
+			return l.honestEvil(q)
+		})
+		p := l.newPipe([]int{0, 3}[c%2], scratch)
+		rep1 := p.askFlags(qs, dns.TypeA, edns, cd)
+		rep2 := p.askFlags(qs, dns.TypeA, edns, cd)
+		bad, vdesc := l.health(p)
+		p.close()
+		l.evil.setHandle(l.honestEvil)
+		l.drainAsked()
+		goFail := ""
+		var left []string
+		for i, rep := range []*dns.Msg{rep1, rep2} {
+			if rep == nil || len(rep.Answer) == 0 {
+				continue
+			}
+			for _, sec := range [][]dns.RR{rep.Ns, rep.Extra} {
+				for _, rr := range sec {
+					if rr.Header().Rrtype == dns.TypeOPT {
+						continue
+					}
+					left = append(left, fmt.Sprintf("reply %d: %s", i+1, vC07Ident(rr)))
+					if !vC07InEvil(rr.Header().Name) && !l.truth(rr) {
+						goFail = fmt.Sprintf("reply %d to %s (a positive answer from the servers of %s) carries %s outside its Answer section", i+1, qs, vC07Evil, vC07Ident(rr))
+					}
+				}
+			}
+			for _, rr := range rep.Answer {
+				if !l.truth(rr) {
+					goFail = "reply to " + qs + " relays " + vC07Ident(rr)
+				}
+			}
+		}
+		if len(bad) > 0 {
+			goFail = strings.Join(bad, "; ")
+		}
+		if rep1 == nil {
+			emit(map[string]any{"k": "sections-" + tag, "inconclusive": true, "desc": "no reply on loopback"})
+			continue
+		}
+		emit(map[string]any{
+			"k": "labsections-" + tag, "nontrivial": true, "go_fail": goFail,
+			"desc": map[string]any{"zone": vC07Evil, "question": qs, "req_edns": edns, "req_do": edns == 2, "req_cd": cd,
+				"sent_answer": vC07DescRRs(attack.answer), "sent_authority": vC07DescRRs(attack.ns), "sent_additional": vC07DescRRs(attack.extra),
+				"client_rcode": vC07RcodeOf(rep1), "client_reply_answer": vC07RRStrings(rep1.Answer), "left_in_authority_or_additional": left, "victim_replies": vdesc},
 		})
 	}
 }
